@@ -344,7 +344,11 @@ fn class_pool(sc: &Scenario, f: usize, t: usize) -> Vec<String> {
     v
 }
 
-fn gen_query(rng: &mut Rng, sc: &Scenario, refm: &RefRemapper, f: usize, pool: &[String]) -> Query {
+/// what query generation needs, computed once per (set, pair)
+struct PairCtx { pool: Vec<String>, keys: Vec<(String, Kind, String, String)>, tr: RefTranslate }
+
+fn gen_query(rng: &mut Rng, sc: &Scenario, refm: &RefRemapper, f: usize, pc: &PairCtx) -> Query {
+    let pool: &[String] = &pc.pool;
     let on_b = rng.bool();
     let pick_class = |rng: &mut Rng| -> String { if pool.is_empty() || rng.chance(1, 8) { rng.pick(EDGE_CLASSES).to_string() } else { rng.pick(pool).clone() } };
     match rng.below(20) {
@@ -362,7 +366,7 @@ fn gen_query(rng: &mut Rng, sc: &Scenario, refm: &RefRemapper, f: usize, pool: &
             // member query
             let kind_pref = if rng.bool() { Kind::Field } else { Kind::Method };
             let owner = if !sc.entities.is_empty() && !rng.chance(1, 10) { sc.eff_name(rng.below(sc.entities.len()), f) } else { pick_class(rng) };
-            let keys = refm.all_member_keys();
+            let keys = &pc.keys;
             let hier: Vec<&scenario::KeySpec> = sc.keys.iter().collect();
             let (kind, mut name, mut d) = if !hier.is_empty() && rng.chance(7, 10) {
                 // a key of the hierarchy, as one of its declarers calls it in the from namespace
@@ -372,11 +376,11 @@ fn gen_query(rng: &mut Rng, sc: &Scenario, refm: &RefRemapper, f: usize, pool: &
                 let row = match k.kind { Kind::Field => &c.fields[&(k.src_name.clone(), k.src_desc.clone())].names, Kind::Method => &c.methods[&(k.src_name.clone(), k.src_desc.clone())].names };
                 let n = row[f].clone().unwrap_or_else(|| k.src_name.clone());
                 // descriptor source -> from with the reference's own class table (0 -> from)
-                let tr = RefTranslate::get(&sc.maps, f);
+                let tr = &pc.tr;
                 let dd = match k.kind { Kind::Field => desc::rewrite_field(&k.src_desc, &|c| tr.apply(c)), Kind::Method => desc::rewrite_method(&k.src_desc, &|c| tr.apply(c)) }.expect("generated descriptor");
                 (k.kind, n, dd)
             } else if !keys.is_empty() && rng.chance(2, 3) {
-                let k = rng.pick(&keys);
+                let k = rng.pick(keys);
                 if rng.bool() { let (k1, n1, d1) = (k.1, k.2.clone(), k.3.clone()); let ow = k.0.clone(); return Query::Member { kind: k1, owner: ow, name: n1, d: d1, api: pick_api(rng, k1) }; }
                 (k.1, k.2.clone(), k.3.clone())
             } else {
@@ -416,7 +420,8 @@ struct SetStats { fingerprint: u64, nontrivial: bool }
 #[derive(Clone, Copy, PartialEq, Eq, Debug)]
 enum Canary { None, ReverseSuperOrder, NoProvider }
 
-fn run_set<const N: usize>(rng: &mut Rng, rep: &mut Report, sc: &Scenario, n_queries: usize, canary: Canary) -> Option<SetStats> {
+fn run_set<const N: usize>(rng: &mut Rng, rep: &mut Report, sc: &Scenario, n_queries: usize, canary: Canary, deadline: Option<std::time::Instant>) -> Option<SetStats> {
+    let lean = deadline.is_some();
     let mut ins_rng = rng.fork();
     let q: Mappings<N, ()> = match to_quill::<N, ()>(&sc.maps, &mut Ins::Shuffle(&mut ins_rng)) {
         Ok(q) => q,
@@ -448,15 +453,15 @@ fn run_set<const N: usize>(rng: &mut Rng, rep: &mut Report, sc: &Scenario, n_que
         let (Ok(nf), Ok(nt)) = (Namespace::<N>::new(f), Namespace::<N>::new(t)) else { rep.count("harness.namespace"); continue };
         let built = guard(|| -> anyhow::Result<_> { Ok((q.remapper_a(nf, nt)?, q.remapper_a(nt, nf)?)) });
         let Some((ra, rra)) = settle(rep, "remapper_a", &Query::Class { name: String::new(), on_b: false }, built) else { continue };
-        let ctxj = || json!({"from": f, "to": t, "namespaces": N, "set": sc.maps.render(), "super_types(from namespace)": format!("{:?}", g_f.providers)});
+        let ctxj = || if lean { json!({"from": f, "to": t}) } else { json!({"from": f, "to": t, "namespaces": N, "set": sc.maps.render(), "super_types(from namespace)": format!("{:?}", g_f.providers)}) };
         let refs = Refs { fwd: &fwd, rev: &rev, g: &g_f };
-        let pool = class_pool(sc, f, t);
+        let pc = PairCtx { pool: class_pool(sc, f, t), keys: fwd.all_member_keys(), tr: RefTranslate::get(&sc.maps, f) };
         // single provider given directly, several as Vec<JarSuperProv>; none at all as NoSuperClassProvider
         macro_rules! with_b { ($pf:expr, $pt:expr) => {{
             let built = guard(|| -> anyhow::Result<_> { Ok((q.remapper_b(nf, nt, $pf)?, q.remapper_b(nt, nf, $pt)?)) });
             if let Some((rb, rrb)) = settle(rep, "remapper_b", &Query::Class { name: String::new(), on_b: true }, built) {
                 let real = Real { a: &ra, b: &rb, rev_a: &rra, rev_b: &rrb };
-                for _ in 0..per_pair { let qu = gen_query(rng, sc, &fwd, f, &pool); eval(rep, &qu, &real, &refs, &ctxj); }
+                for _ in 0..per_pair { if deadline.is_some_and(|d| std::time::Instant::now() >= d) { break; } let qu = gen_query(rng, sc, &fwd, f, &pc); eval(rep, &qu, &real, &refs, &ctxj); }
             }
         }}}
         if prov_f.len() == 1 && prov_t.len() == 1 { rep.count("provider.single_JarSuperProv"); with_b!(&prov_f[0], &prov_t[0]); }
@@ -469,33 +474,36 @@ fn run_set<const N: usize>(rng: &mut Rng, rep: &mut Report, sc: &Scenario, n_que
     for k in ["q.member.owner_declares", "q.member.nearest_declaring_super_type", "q.member.walk_through_class_without_entry", "q.member.identity_fallback", "q.member.depth_first_differs_from_breadth_first", "q.desc.255_dimensions", "roundtrip.member"] {
         cats.push(if rep.get(k) > before.get(k).copied().unwrap_or(0) { '1' } else { '0' });
     }
+    if lean { return Some(SetStats { fingerprint: 0, nontrivial: false }); }
     let absent = sc.entities.iter().filter(|e| !e.in_set).count();
     let fp = rng::fnv_str(&format!("{N}|{}|{}|{}|{}|{}|{}|{:x}", sc.shape, sc.max_depth(), sc.has_diamond(), absent.min(4), sc.n_providers, cats, sc.maps.shape_fingerprint()));
     let nontrivial = rep.get("q.member.nearest_declaring_super_type") + rep.get("q.member.walk_through_class_without_entry") > before.get("q.member.nearest_declaring_super_type").copied().unwrap_or(0) + before.get("q.member.walk_through_class_without_entry").copied().unwrap_or(0);
     Some(SetStats { fingerprint: fp, nontrivial })
 }
 
-fn run_scenario(rng: &mut Rng, rep: &mut Report, sc: &Scenario, n_queries: usize, canary: Canary) -> Option<SetStats> {
+fn run_scenario(rng: &mut Rng, rep: &mut Report, sc: &Scenario, n_queries: usize, canary: Canary, deadline: Option<std::time::Instant>) -> Option<SetStats> {
     match sc.maps.n() {
-        2 => run_set::<2>(rng, rep, sc, n_queries, canary),
-        3 => run_set::<3>(rng, rep, sc, n_queries, canary),
-        4 => run_set::<4>(rng, rep, sc, n_queries, canary),
+        2 => run_set::<2>(rng, rep, sc, n_queries, canary, deadline),
+        3 => run_set::<3>(rng, rep, sc, n_queries, canary, deadline),
+        4 => run_set::<4>(rng, rep, sc, n_queries, canary, deadline),
         n => { rep.note(format!("unsupported namespace count {n}")); None }
     }
 }
 
-fn one_case(rng: &mut Rng, rep: &mut Report, n_queries: usize, small: bool) {
+fn one_case(rng: &mut Rng, rep: &mut Report, n_queries: usize, small: bool, deadline: Option<std::time::Instant>) {
     let sc = gen_scenario(rng, small);
     rep.eval();
     rep.count(&format!("shape.{}", sc.shape));
     rep.count(&format!("namespaces.{}", sc.maps.n()));
-    rep.count(&format!("graph.max_depth.{}", sc.max_depth().min(8)));
-    if sc.has_diamond() { rep.count("graph.with_diamond"); }
+    if deadline.is_none() {
+        rep.count(&format!("graph.max_depth.{}", sc.max_depth().min(8)));
+        if sc.has_diamond() { rep.count("graph.with_diamond"); }
+    }
     if sc.entities.iter().any(|e| !e.in_set) { rep.count("graph.with_entity_absent_from_mappings"); }
     if sc.n_providers > 1 { rep.count("graph.split_over_several_providers"); }
     if !sc.repeats.is_empty() { rep.count("graph.entry_repeated_in_later_provider"); }
     if sc.keys.iter().any(|k| k.declarers.len() > 1) { rep.count("graph.member_declared_twice"); }
-    if let Some(st) = run_scenario(rng, rep, &sc, n_queries, Canary::None) {
+    if let Some(st) = run_scenario(rng, rep, &sc, n_queries, Canary::None, deadline) {
         if st.nontrivial { rep.nontrivial(st.fingerprint); }
         if rep.want_sample() && st.nontrivial {
             let g = sc.graph(0);
@@ -559,7 +567,7 @@ fn self_checks(seed: u64) -> Result<(), String> {
         for (k, canary) in [Canary::ReverseSuperOrder, Canary::NoProvider].iter().enumerate() {
             let mut rep = Report::new();
             let mut r2 = rng.clone();
-            run_scenario(&mut r2, &mut rep, &sc, 200, *canary);
+            run_scenario(&mut r2, &mut rep, &sc, 200, *canary, None);
             if rep.violations.keys().any(|s| s.starts_with("C06 map_")) { found[k] = true; }
         }
         if found[0] && found[1] { break; }
@@ -586,18 +594,19 @@ fn self_checks(seed: u64) -> Result<(), String> {
 
 // ------------------------------------------------------------------------------------------------ Miri
 
-/// `c06 --miri-slice <seed> <queries>`: single-threaded, no files, no Ctx. Prints one summary line.
-fn miri_slice(seed: u64, queries: usize) -> i32 {
+/// `c06 --miri-slice <seed> <queries> [max seconds]`: single-threaded, no files, no Ctx. Prints one summary line.
+fn miri_slice(seed: u64, queries: usize, max_s: u64) -> i32 {
     let mut rep = Report::new();
+    let deadline = std::time::Instant::now() + std::time::Duration::from_secs(max_s);
     let mut i = 0u64;
-    while (rep.get("queries") as usize) < queries && i < 10_000 {
+    while (rep.get("queries") as usize) < queries && i < 10_000 && std::time::Instant::now() < deadline {
         let mut rng = Rng::new(rng::case_seed(seed, "C06/miri", i));
         rep.cur = ("miri".into(), i);
-        one_case(&mut rng, &mut rep, 30, true);
+        one_case(&mut rng, &mut rep, 100, true, Some(deadline));
         i += 1;
     }
     for v in rep.violations.values() { println!("SLICE-OBSERVATION {} ({}x)", v.signature, v.count); }
-    println!("MIRI-SLICE done sets={} queries={} observations={}", i, rep.get("queries"), rep.violations.len());
+    println!("MIRI-SLICE done sets={} queries={} (asked for {}) observations={}", i, rep.get("queries"), queries, rep.violations.len());
     0
 }
 
@@ -606,7 +615,7 @@ fn run_miri(ctx: &Ctx, queries: usize) -> (String, Option<String>) {
     let manifest = format!("{}/../../Cargo.toml", env!("CARGO_MANIFEST_DIR"));
     if !std::path::Path::new(&manifest).exists() { return (format!("skipped: {manifest} not found"), None); }
     let t0 = std::time::Instant::now();
-    let out = std::process::Command::new("timeout").args(["-k", "10", "285", "cargo", "+nightly", "miri", "run", "--offline", "--manifest-path", &manifest, "-p", "c06", "--", "--miri-slice", &ctx.seed.to_string(), &queries.to_string()])
+    let out = std::process::Command::new("timeout").args(["-k", "10", "285", "cargo", "+nightly", "miri", "run", "--offline", "--manifest-path", &manifest, "-p", "c06", "--", "--miri-slice", &ctx.seed.to_string(), &queries.to_string(), "200"])
         .env("MIRIFLAGS", "-Zmiri-disable-isolation").env_remove("RUSTFLAGS").output();
     let out = match out { Ok(o) => o, Err(e) => return (format!("skipped: cannot start cargo miri: {e}"), None) };
     let so = String::from_utf8_lossy(&out.stdout); let se = String::from_utf8_lossy(&out.stderr);
@@ -626,14 +635,15 @@ fn main() {
     if let Some(p) = args.iter().position(|a| a == "--miri-slice") {
         let seed = args.get(p + 1).and_then(|s| s.parse().ok()).unwrap_or(1);
         let n = args.get(p + 2).and_then(|s| s.parse().ok()).unwrap_or(300);
-        std::process::exit(miri_slice(seed, n));
+        let max_s = args.get(p + 3).and_then(|s| s.parse().ok()).unwrap_or(200);
+        std::process::exit(miri_slice(seed, n, max_s));
     }
     let mut ctx = Ctx::from_args("C06", 30, 400);
     let replay = load_replay(&mut ctx);
     if let Err(e) = self_checks(ctx.seed) { println!("HARNESS-ERROR C06 self-check failed: {e}"); std::process::exit(3); }
     let mut rep = Report::new();
     let n = ctx.tier.pick(15_000, 400_000);
-    run_cases(&ctx, &replay, &mut rep, "sets", n, |rng, rep, _case| one_case(rng, rep, 200, false));
+    run_cases(&ctx, &replay, &mut rep, "sets", n, |rng, rep, _case| one_case(rng, rep, 200, false, None));
 
     let mut meta = Meta::new("exploration",
         "a case = one generated mapping set (2-4 namespaces, partial name rows, maps::gen base + members declared across an inheritance graph of <= 13 classes of which some are absent from the set) x up to 4 (from,to) namespace pairs x 200 queries over every ARemapper/BRemapper method; \
